@@ -151,7 +151,7 @@ func c03Scenario(c *Ctx, idx int, r *Rng) {
 		w.git("config", "--unset", "lfs.url")
 	}
 	batch := Pick(r, []int{1, 2, 3, 100})
-	w.git("config", "lfs.batchsize", fmt.Sprint(batch))
+	w.git("config", "lfs.transfer.batchsize", fmt.Sprint(batch))
 	var steps []string
 	log := func(f string, a ...interface{}) { steps = append(steps, fmt.Sprintf(f, a...)) }
 	log("batchsize=%d remotes=%d", batch, nremotes)
